@@ -16,6 +16,7 @@ RULE += " " + "The MAE of every csv slice is also compared with the selected cas
 ASSUMPTIONS = ["location metadata is consistent across files (the first file's is used for range options)",
                "initialisation times on whole hours; coordinates exactly representable in float32"]
 REQUIRED_COUNTERS = ["option_sets", "list_checks", "data_attr_checks", "csv_checks", "empty_selection_checks", "strict_subsets"]
+ROTATE_TZ = True       # dates, times of day and time labels are UTC whatever the time zone of the machine
 ANCHOR_FUNCS = ["Data.__init__", "Data._get_common_indices"]
 
 
